@@ -2,6 +2,7 @@ import Tickit.Proof.RBFlushTextRun
 import Tickit.Proof.RBFlushReach
 import Tickit.Proof.RBFlushX
 import Tickit.Proof.RBFlushSuspend
+import Tickit.Proof.RBFlushSim
 /-
   C04 — flushing a render buffer reproduces its content on the terminal exactly once.
 
@@ -607,8 +608,10 @@ open Tickit.RBFlushX in
     terminal's reading of a character cell (`char_encoding`, `char_cell_on_vt`), the terminal's reading of the driver's
     goto, erase (outside reverse video) and text bytes as the cursor movement, ECH (+ CUF) and printed code points they
     stand for (`goto_on_vt`, `erase_on_vt`, `text_on_vt`), and, on the grid terminal, the whole statement
-    (`flush_spec_screen`).  Missing: the reading of the SGR bytes as the pen (C10 proves it for its own interpreter), and
-    the composition of the per-request readings with `flush_spec_screen`. -/
+    (`flush_spec_screen`); the reading of the SGR bytes as the pen (`sgr_on_vt`, `setpen_on_vt`), the simulation between
+    the grid terminal and the VT screen request by request (`request_on_vt_is_grid_step`) and over a whole request list,
+    and the statement itself under two extra hypotheses about the request list and the erase cells
+    (`C04_xterm_screen_partial` below, which also says what is still missing). -/
 def C04_xterm_screen : Prop :=
   ∀ (caps : TermPen.Caps) (n : Nat) (rb : RB) (s : XScreen) (cache : Pen),
     FlushWF rb → (∀ l c, s.lines ≤ l ∨ s.cols ≤ c → want rb l c = .keep) →
@@ -617,6 +620,145 @@ def C04_xterm_screen : Prop :=
     ∀ l c, 0 ≤ l → l < s.lines → 0 ≤ c → c < s.cols →
       xcellOK caps (want rb l c) (s.cells l c)
         ((s.interp (xflush caps n cache (flushToTerm rb).reqs).stream).cells l c) = true
+
+/-! ### The chain below `C04_xterm_screen`: SGR reading, one request on the VT = the grid terminal's step, whole flush -/
+
+open Tickit.RBFlushX in
+/-- **sgr_on_vt**: the VT screen's tokenizer reads `ESC [ params m` as the xterm driver's `chpen` renders it (either
+    separator) as one SGR control sequence with exactly the parameter groups C10's parser sees; only the rendition
+    changes, by C10's SGR interpreter applied to those groups. -/
+theorem sgr_on_vt (colon : Bool) (ps : List TermPen.Param) (s : XScreen) (hg : s.ps = .ground) :
+    s.interp (toBytes (TermPen.renderSgr colon ps)) =
+      { s with attrs := Sgr.sgrApply (Tickit.Proof.Sgr.groupsFlat colon ps [] []) s.attrs } :=
+  XScreen.interp_renderSgr colon ps s hg
+
+open Tickit.RBFlushX in
+/-- **setpen_on_vt**: a setpen request of the flush reaches the VT as the delta of `tickit_term_setpen` against
+    `tt->pen`, rendered by the driver's `chpen`; a VT screen whose rendition is in step with `tt->pen` reads it as
+    "rendition := what `tt->pen` asks for afterwards" and nothing else - every cached pen and requested pen the driver
+    can say in SGR, both separators, with and without RGB (C10's `step_inv` carried over to the VT screen). -/
+theorem setpen_on_vt (caps : TermPen.Caps) (cache p : Pen) (s : XScreen) (hg : s.ps = .ground)
+    (ha : s.attrs = expectAttrs caps cache) (hc : PenEncodable caps cache) (hp : PenEncodable caps p) :
+    s.interp (reqCalls caps cache (.setpen p)).flatten = { s with attrs := expectAttrs caps (termSetpen cache p) } ∧
+    PenEncodable caps (termSetpen cache p) ∧ PenTotal (termSetpen cache p) :=
+  ⟨interp_setpen caps cache p s hg ha hc hp, penEncodable_termSetpen caps cache p hc hp, penTotal_termSetpen cache p⟩
+
+/-- Non-vacuity: bold red requested of a terminal whose `tt->pen` is still empty: every attribute is sent, and the VT
+    screen renders bold red afterwards. -/
+example :
+    (Tickit.RBFlushX.reqCalls ⟨false, false⟩ {} (.setpen { fg := some ⟨1, none⟩, bold := some true })).flatten.length > 7 ∧
+    ((Tickit.RBFlushX.XScreen.fresh 2 4).interp
+      (Tickit.RBFlushX.reqCalls ⟨false, false⟩ {} (.setpen { fg := some ⟨1, none⟩, bold := some true })).flatten).attrs =
+      { fg := .idx 1, bold := true } := by decide +kernel
+
+open Tickit.RBFlushX in
+/-- **request_on_vt_is_grid_step**: one request of the flush that the simulation covers (`ReqOK`: a goto, a setpen
+    with a pen the driver can say, an erase outside reverse video, a print of well-formed UTF-8 of printable characters
+    of two, one or no columns that fit on the line - CHAR cells, TEXT runs, LINE batches), read by the VT screen as
+    the bytes the xterm driver writes for it, does what the request does on the grid terminal of `flush_spec_screen`:
+    the two terminals stay in step (`Sim`: same glyphs, same write counts, each written VT cell in the rendition its
+    grid cell's pen asks for, VT rendition = `tt->pen`), the cursors agree once a goto has been seen (`Cur`). -/
+theorem request_on_vt_is_grid_step {caps : TermPen.Caps} {t0 t : GridTerm} {s0 s : XScreen} (h : Sim caps t0 s0 t s)
+    (moved : Bool) (hcur : moved = true → Cur t0 t s) (r : Req) (hr : ReqOK caps moved t r) :
+    Sim caps t0 s0 (t.stepL s.lines r) (s.interp (reqCalls caps t.pen r).flatten) ∧
+    (movedAfter moved r = true → Cur t0 (t.stepL s.lines r) (s.interp (reqCalls caps t.pen r).flatten)) :=
+  ⟨(req_sim h moved hcur r hr).1, (req_sim h moved hcur r hr).2.1⟩
+
+open Tickit.RBFlushX in
+/-- **xterm_screen_of_runOK**: `C04_xterm_screen` under two extra hypotheses - the requests of the flush are ones
+    the simulation covers (`RunOK`, evaluated along the grid terminal's run: gotos at non-negative positions, pens the
+    driver can say, erases outside reverse video, print requests whose bytes are well-formed UTF-8 of printable
+    characters that fit on the line)
+    and no erase cell asks for reverse video.  Then, through an output buffer of any size, every cell of the VT screen
+    (inside and outside the buffer's area) meets the obligation of the buffer's content: glyph, the rendition its own
+    pen asks for, written exactly once; untouched where the buffer skips.  The composition: `flush_stream_any_buffer`
+    (the bytes are the driver's writes in order), `reqs_sim` (the VT screen stays in step with the grid terminal),
+    `flush_spec_screen` (the grid terminal meets `cellOK`), `sim_xcellOK`. -/
+theorem xterm_screen_of_runOK (caps : TermPen.Caps) (n : Nat) (rb : RB) (s : XScreen) (cache : Pen)
+    (hwf : FlushWF rb) (hin : ∀ l c, s.lines ≤ l ∨ s.cols ≤ c → want rb l c = .keep)
+    (hl : 0 < s.lines) (hc : 0 < s.cols) (hg : s.ps = .ground) (he : PenEncodable caps cache)
+    (ha : s.attrs = expectAttrs caps cache)
+    (hrun : RunOK caps s.lines false (gridOf s cache) (flushToTerm rb).reqs)
+    (hrv : ∀ l c p, want rb l c = .glyph .blank p → Pen.getBool p.reverse = false) :
+    ∀ l c, xcellOK caps (want rb l c) (s.cells l c)
+      ((s.interp (xflush caps n cache (flushToTerm rb).reqs).stream).cells l c) = true := by
+  intro l c
+  rw [(flush_stream_any_buffer caps n cache rb).2]
+  have h0 := sim_init caps s cache hl hc hg ha he
+  have hs : Sim caps (gridOf s cache) s ((gridOf s cache).runL s.lines (flushToTerm rb).reqs)
+      (s.interp (reqsCalls caps cache (flushToTerm rb).reqs).flatten) :=
+    reqs_sim (flushToTerm rb).reqs (gridOf s cache) s false h0 (by intro h; cases h) hrun
+  obtain ⟨_, _, hcell⟩ := flush_spec_screen rb hwf (gridOf s cache) s.lines hin
+  exact sim_xcellOK hs l c _ rfl (hrv l c) (hcell l c)
+
+open Tickit.RBFlushX in
+/-- **C04_xterm_screen_partial**: `C04_xterm_screen` under two extra hypotheses, both about the buffer's requests and
+    content alone: `StaticOK` of the flush's request list (every erase and print comes after a goto; erases have at
+    least one cell, are not `TICKIT_NO` and come when the last pen set has no reverse video; the bytes of every print
+    request are well-formed UTF-8 of printable code points that have a width; pens the driver can say; columns not
+    negative) and no erase cell asking for reverse video.  That the requests fit the screen (no wrap, no clamped
+    movement) is not assumed: it follows from "the content lies within the screen" (`Calm`, the by-product of
+    `flush_spec_screen`'s proof; `runOK_of_calm`).  Conclusion as in `C04_xterm_screen`, for every cell of the screen
+    (`xterm_screen_of_runOK`: also for the cells outside it): through an
+    output buffer of any size the VT screen shows the buffer's content over the prior screen, each cell in the rendition
+    its own pen asks for, written exactly once.  Still missing for `C04_xterm_screen` itself: `StaticOK` from `FlushWF`,
+    `TextsStrict`, `CharsPrintable` and the pens of the cells (an induction over `flushCols`: the slices of TEXT runs, the
+    glyphs of LINE batches), and erases under reverse video (the driver prints spaces: the VT cell then holds a space in
+    full rendition, and the cursors part until the next goto - `Sim`/`Cur` would have to be weakened to `glyphSame`). -/
+theorem C04_xterm_screen_partial (caps : TermPen.Caps) (n : Nat) (rb : RB) (s : XScreen) (cache : Pen)
+    (hwf : FlushWF rb) (hin : ∀ l c, s.lines ≤ l ∨ s.cols ≤ c → want rb l c = .keep)
+    (hg : s.ps = .ground) (he : PenEncodable caps cache) (ha : s.attrs = expectAttrs caps cache)
+    (hst : StaticOK caps false (Pen.getBool cache.reverse) (flushToTerm rb).reqs)
+    (hrv : ∀ l c p, want rb l c = .glyph .blank p → Pen.getBool p.reverse = false) :
+    ∀ l c, 0 ≤ l → l < s.lines → 0 ≤ c → c < s.cols →
+      xcellOK caps (want rb l c) (s.cells l c)
+        ((s.interp (xflush caps n cache (flushToTerm rb).reqs).stream).cells l c) = true := by
+  intro l c hl0 hl1 hc0 hc1
+  have hl : 0 < s.lines := by omega
+  have hc : 0 < s.cols := by omega
+  obtain ⟨_, _, hcalm⟩ := flush_spec_of_text_within (W := (gridOf s cache).cols) (L := s.lines) hwf (within_of_want hin)
+    (fun _ _ h1 h2 h3 hr hs => text_run ⟨h1, h2⟩ h3 hr hs) (gridOf s cache) (Int.le_refl _)
+  exact xterm_screen_of_runOK caps n rb s cache hwf hin hl hc hg he ha
+    (runOK_of_calm caps s.lines _ (gridOf s cache) false hcalm hst) hrv l c
+
+/-- U+00E9 in a CHAR cell at (0,1) and an erase run of three cells on line 1 of a 2×4 buffer. -/
+def simXRB : RB := eraseAt (charAt (RB.new 2 4 0 0) 0 1 0xe9) 1 0 3
+
+theorem simXRB_requests :
+    (flushToTerm simXRB).reqs =
+      [.goto 0 1, .setpen Pen.empty, .print [0xc3, 0xa9] 0 2, .goto 1 0, .setpen Pen.empty, .erasech 3 .maybe] := by
+  decide +kernel
+
+open Tickit.RBFlushX in
+/-- Non-vacuity: the hypotheses of `C04_xterm_screen_partial` hold of `simXRB` on a fresh 2×4 screen, and the VT screen
+    shows `é` at (0,1) after reading the bytes that came through a 3-byte output buffer. -/
+example : RunOK ⟨false, false⟩ (XScreen.fresh 2 4).lines false (gridOf (XScreen.fresh 2 4) {}) (flushToTerm simXRB).reqs := by
+  rw [simXRB_requests]
+  refine ⟨⟨by decide, by decide⟩, by unfold ReqOK PenEncodable; decide,
+    ⟨rfl, by decide, [0xe9], by
+      intro cp hcp
+      simp only [List.mem_singleton] at hcp
+      subst hcp
+      exact ⟨by decide, by decide +kernel⟩, by decide, by simp only [Fits]; decide +kernel⟩,
+    ⟨by decide, by decide⟩, by unfold ReqOK PenEncodable; decide,
+    ⟨rfl, by decide, by decide, by decide +kernel⟩, trivial⟩
+
+open Tickit.RBFlushX in
+/-- Non-vacuity of `C04_xterm_screen_partial`: its hypothesis about the requests holds of `simXRB`. -/
+example : StaticOK ⟨false, false⟩ false (Pen.getBool ({} : Pen).reverse) (flushToTerm simXRB).reqs := by
+  rw [simXRB_requests]
+  refine ⟨by decide, by unfold PenEncodable; decide,
+    ⟨rfl, by decide, [0xe9], by
+      intro cp hcp
+      simp only [List.mem_singleton] at hcp
+      subst hcp
+      exact ⟨by decide, by decide +kernel⟩, by decide⟩,
+    by decide, by unfold PenEncodable; decide, ⟨rfl, by decide, by decide, by decide⟩, trivial⟩
+
+example :
+    (((Tickit.RBFlushX.XScreen.fresh 2 4).interp
+      (Tickit.RBFlushX.xflush ⟨false, false⟩ 3 {} (flushToTerm simXRB).reqs).stream).cells 0 1).glyph =
+      .chars [0xc3, 0xa9] := by decide +kernel
 
 /-! ### Pause and resume between two flushes ("for every prior terminal pen") -/
 
